@@ -51,7 +51,7 @@ def replay(hist, *, stop, adapter, unit="seconds", compress=False, srv=None, tea
                 if slog != list(h["slog"]):
                     # the compressed format keeps one value list per constant and renumbers from 1.0:
                     # steps without settings vanish from the log (D15)
-                    if known is not None and compress and slog == [v for v in h["slog"] if v > 0]:
+                    if known is not None and compress and list(h["slogF"]) != list(h["slog"]) and slog == list(h["slogF"]):
                         known.append(("D15_compress_lossy", n, list(h["slog"]), slog))
                         return None
                     return mism("settings log", list(h["slog"]), slog)
